@@ -1357,11 +1357,9 @@ func (gs *GossipSubRouter) rpcs(msg *Message) iter.Seq2[peer.ID, *RPC] {
 
 		tosend := make(map[peer.ID]struct{})
 
-		// any peers in the topic?
-		tmap, ok := gs.p.topics[topic]
-		if !ok {
-			return
-		}
+		// tmap may be nil (no peer has announced the topic); mesh members that
+		// only GRAFTed are still served below
+		tmap := gs.p.topics[topic]
 
 		if gs.floodPublish && from == gs.p.host.ID() {
 			for p := range tmap {
